@@ -24,6 +24,10 @@ structure S where
   times : Array Nat := #[]
   conts : List (String × (Nat × Nat × Nat × List Nat × Bool × Option RefKey)) := []  -- label ↦ (start, pred, at, scope, inverse, key); key none = finished
   lastT : Nat := 0
+  dsidEver : List Nat := []              -- every dataset id ever handed out
+  /-- the inputs themselves contradict the specification: an internal id or a dataset id was handed out twice
+  (C04/C07/C13: identifiers are never reused, also not after a crash). The specification then has no answer. -/
+  poison : Option String := none
 
 def ridOf (s : S) (u : String) : Nat := (s.rid.lookup u).getD 0
 def uriFor (s : S) (r : Nat) : String := (s.uriOf.lookup r).getD ""
@@ -295,7 +299,12 @@ def regIds (s : S) (rids : Json) : S :=
   match rids with
   | .obj kvs => kvs.toList.foldl (fun s (k, v) =>
       match (fromJson? v : R Nat) with
-      | .ok n => { s with rid := (k, n) :: s.rid, uriOf := (n, k) :: s.uriOf }
+      | .ok n =>
+        let clash := match s.uriOf.lookup n with | some k' => k' != k | none => false
+        let clash2 := match s.rid.lookup k with | some n' => n' != n | none => false
+        { s with rid := (k, n) :: s.rid, uriOf := (n, k) :: s.uriOf,
+                 poison := if clash then some s!"internal id {n} handed out for {k} and for {(s.uriOf.lookup n).getD ""}"
+                           else if clash2 then some s!"identifier {k} has two internal ids" else s.poison }
       | _ => s) s
   | _ => s
 
@@ -335,7 +344,9 @@ def doOpCore (a : Acc) (idx : Nat) (op : Json) : R Acc := do
       if (s.dsid.lookup name).isSome then return a   -- exists already: CreateDataset returns it
       let pn := (getOpt op "publicNamespaces").getD Json.null
       return { a with s := { s with dsid := (name, n) :: s.dsid, pubNs := (name, pn) :: s.pubNs.filter (·.1 != name),
-                                    ever := if s.ever.contains name then s.ever else name :: s.ever } }
+                                    ever := if s.ever.contains name then s.ever else name :: s.ever,
+                                    dsidEver := n :: s.dsidEver,
+                                    poison := if s.dsidEver.contains n then some s!"dataset id {n} handed out twice ({name})" else s.poison } }
     | none => return a
   | "store" =>
     if !okRc then return a
@@ -468,7 +479,10 @@ def hist (inp : Json) : R Res := do
   for op in ops do
     a ← doOp a i op
     i := i + 1
-  return { m := Json.arr a.outM, s := some (Json.arr a.outS), nt := decide (a.nt ≥ 2 ∧ a.s.db.versions.length ≥ 3), kf := a.kf, kfi := a.kfi }
+  let specOut := match a.s.poison with
+    | some msg => Json.arr #[Json.mkObj [("violates", Json.str msg)]]
+    | none => Json.arr a.outS
+  return { m := Json.arr a.outM, s := some specOut, nt := decide (a.nt ≥ 2 ∧ a.s.db.versions.length ≥ 3), kf := a.kf, kfi := a.kfi }
 
 def handle (k : String) (inp : Json) : Option (R Res) :=
   match k with
